@@ -319,7 +319,7 @@ _ite_cache = {}
 def contains_ite(t):
     i = t.get_id()
     if i in _ite_cache:
-        return _ite_cache[i]
+        return _ite_cache[i][1]
     r = False
     if z3.is_app(t):
         if t.decl().kind() == z3.Z3_OP_ITE:
@@ -328,7 +328,7 @@ def contains_ite(t):
             r = any(contains_ite(c) for c in t.children())
     elif z3.is_quantifier(t):
         r = True
-    _ite_cache[i] = r
+    _ite_cache[i] = (t, r)  # keep t alive: z3 reuses ids of collected terms
     return r
 
 
